@@ -27,12 +27,14 @@ CONSTANTS Nodes,   \* sequence of node records, index = node id
 
 -----------------------------------------------------------------------------
 (* results *)
-RT(e)        == [k |-> "T", e |-> e, who |-> 0, at |-> 0, n |-> 0]
-RF           == [k |-> "F", e |-> 0, who |-> 0, at |-> 0, n |-> 0]
-RX(who, at)  == [k |-> "X", e |-> 0, who |-> who, at |-> at, n |-> 0]
-RXN(who, at) == [k |-> "X", e |-> 0, who |-> who, at |-> at, n |-> 1]
-RL           == [k |-> "L", e |-> 0, who |-> 0, at |-> 0, n |-> 0]
-RO           == [k |-> "O", e |-> 0, who |-> 0, at |-> 0, n |-> 0]
+\* m = 1: the exception was produced by raise< T > itself, its message names T rather than the rule
+RT(e)        == [k |-> "T", e |-> e, who |-> 0, at |-> 0, n |-> 0, m |-> 0]
+RF           == [k |-> "F", e |-> 0, who |-> 0, at |-> 0, n |-> 0, m |-> 0]
+RX(who, at)  == [k |-> "X", e |-> 0, who |-> who, at |-> at, n |-> 0, m |-> 0]
+RXT(who, at) == [k |-> "X", e |-> 0, who |-> who, at |-> at, n |-> 0, m |-> 1]
+RXN(who, at) == [k |-> "X", e |-> 0, who |-> who, at |-> at, n |-> 1, m |-> 0]
+RL           == [k |-> "L", e |-> 0, who |-> 0, at |-> 0, n |-> 0, m |-> 0]
+RO           == [k |-> "O", e |-> 0, who |-> 0, at |-> 0, n |-> 0, m |-> 0]
 
 \* exception identities that are not rules
 XActParseError == -1   \* parse_error thrown by an action
@@ -159,6 +161,14 @@ WithAct(n, p, r, c) ==
            [] kind = 6 -> IF (len + vid) % 3 = 0 THEN RX(XActParseError, p) ELSE r
            [] OTHER    -> r
    ELSE r
+
+\* harness actions of if_apply / apply / apply0 (see vt::ia_v, vt::ia_b)
+IaTrue(kind, n, len, zero) == kind = 1 \/ (IF zero THEN n % 3 # 0 ELSE (len + n) % 3 # 0)
+IaAll(pp, len, zero) == \A i \in 1..(Len(pp) \div 2) : IaTrue(pp[2*i-1], pp[2*i], len, zero)
+\* number of listed actions that are called: all up to and including the first that returns false
+IaCalled(pp, len, zero) ==
+   LET F == {i \in 1..(Len(pp) \div 2) : ~IaTrue(pp[2*i-1], pp[2*i], len, zero)} IN
+   IF F = {} THEN Len(pp) \div 2 ELSE CHOOSE i \in F : \A j \in F : i <= j
 
 \* which exceptions a try_catch catches: p[1] = 0 any, 1 parse_error_base, 2 std::exception, 3 foreign_error
 Catches(kind, who) ==
@@ -364,11 +374,14 @@ DenX(x, p, c, d) ==
      [] op = "action"   -> SeqK(k, 1, p, [c EXCEPT !.fam = pp[1]], d)
      [] op = "state"    -> SeqK(k, 1, p, c, d)
      [] op = "control"  -> RO
-     [] op = "apply"    -> RT(p)
-     [] op = "apply0"   -> RT(p)
-     [] op = "if_apply" -> SeqK(k, 1, p, c, d)
+     \* if_apply / apply / apply0 call their listed actions in order and stop at the first that returns false;
+     \* pp = <<kind1, n1, kind2, n2, ...>> describes the harness actions (kind 1 void, 2 bool)
+     [] op = "apply"    -> IF c.A = 1 /\ ~IaAll(pp, 0, FALSE) THEN RF ELSE RT(p)
+     [] op = "apply0"   -> IF c.A = 1 /\ ~IaAll(pp, 0, TRUE) THEN RF ELSE RT(p)
+     [] op = "if_apply" -> LET r == SeqK(k, 1, p, c, d) IN
+                           IF r.k = "T" /\ c.A = 1 /\ ~IaAll(pp, r.e - p, FALSE) THEN RF ELSE r
      \* global failure
-     [] op = "raise"    -> RX(x.id, p)
+     [] op = "raise"    -> RXT(x.id, p)
      [] op = "try_catch_return_false" ->
                            LET r == SeqK(k, 1, p, c, d) IN
                            IF r.k = "X" /\ Catches(pp[1], r.who) THEN RF ELSE r
